@@ -934,8 +934,11 @@ def check_C17(tr, welcome=None):
                 b = st.bind_pre.get(c)
                 if b and any(r[1] == mbid and r[0] != b[0] for r in st.pre.mailboxes):
                     known = "K-global-mailbox-id"
-            if clss == ["ValueError"] and m.get("type") == "allocate":
-                known = "K-alloc-exhaust"
+            if clss == ["ValueError"] and m.get("type") == "allocate" and st.pre is not None:
+                b = st.bind_pre.get(c)
+                taken = {r[2] for r in st.pre.nameplates if b and r[1] == b[0]}
+                if all(str(k) in taken for k in range(1, 1000)):
+                    known = "K-alloc-exhaust"
             out.append(Finding("C17", "no sequence of well-formed commands makes a handler fail internally", st.i,
                                {"events": st.raw_events}, known))
     return out
